@@ -44,9 +44,10 @@ LEVEL = "model_checking"
 MAX_N = 4
 MAX_W = 3
 LETTERS = ("one", "two", "slow", "syn", "lex", "empty")
-ALL_LETTERS = LETTERS + ("ws1", "ws2", "dup")
+ALL_LETTERS = LETTERS + ("ws1", "ws2", "dup", "tup")
 # lists over the extra letters (texts that are equal up to white space / equal under different names)
-EXTRA_LISTS = (("ws1", "ws2"), ("ws2", "ws1"), ("ws1", "ws1"), ("ws1", "ws2", "ws1"), ("ws2", "one", "ws1"), ("one", "dup"), ("dup", "one"), ("one", "dup", "one"), ("lex", "ws2", "ws1"))
+EXTRA_LISTS = (("ws1", "ws2"), ("ws2", "ws1"), ("ws1", "ws1"), ("ws1", "ws2", "ws1"), ("ws2", "one", "ws1"), ("one", "dup"), ("dup", "one"), ("one", "dup", "one"), ("lex", "ws2", "ws1"),
+               ("tup",), ("tup", "one"), ("two", "tup"), ("syn", "tup"), ("tup", "lex", "tup"))
 TASK_TIMEOUT = float(os.environ.get("VERIF_C18_TASK_TIMEOUT", "60"))  # one parse_single takes 0.2-0.5 s
 REAL_TIMEOUT = float(os.environ.get("VERIF_C18_REAL_TIMEOUT", "90"))  # one Parser.parse with the real pool takes ~1 s
 SEQ_TIMEOUT = float(os.environ.get("VERIF_C18_SEQ_TIMEOUT", "150"))  # one subtree of the sequential reference (<= 43 parse_single calls)
@@ -104,10 +105,12 @@ def setup():
         "ws1": ("ws_logical_and", ["{ RdV = RsV && RtV; }"]),
         "ws2": ("ws_and_addr", ["{ RdV = RsV & &RtV; }"]),
         "dup": ("A2_add_again", list(corpus["A2_add"])),
+        # the parts of a two-part behaviour given as a tuple, the way PreprocessorHexagon.split_compounds returns them
+        "tup": ("parts_as_tuple", tuple(corpus["J4_cmpeqi_tp0_jump_nt"])),
     }
     _S.update(P=P, Conf=Conf, grammar=grammar, alpha=alpha, orig_pool=P.Pool, lark=lark, ref_parser=lark.Lark(grammar, start="fbody", parser="earley"), ref_parts={})
     shape = {k: ref_parts(tuple(v[1])) for k, v in alpha.items()}
-    want = {"one": (1, None), "two": (2, None), "slow": (1, None), "syn": (0, "UnexpectedEOF"), "lex": (0, "UnexpectedCharacters"), "empty": (1, None), "ws1": (1, None), "ws2": (1, None), "dup": (1, None)}
+    want = {"one": (1, None), "two": (2, None), "slow": (1, None), "syn": (0, "UnexpectedEOF"), "lex": (0, "UnexpectedCharacters"), "empty": (1, None), "ws1": (1, None), "ws2": (1, None), "dup": (1, None), "tup": (2, None)}
     if shape["ws1"][0] == shape["ws2"][0]:
         raise core.HarnessError("the two white-space twins parse to the same tree under this grammar")
     got = {k: (len(v[0]), v[1]) for k, v in shape.items()}
@@ -155,7 +158,7 @@ def task_name(pos, letter):
 def make_tasks(chain):
     """chain: tuple of (position, letter) -> [(instruction name, [behaviour part, ...]), ...]"""
     A = setup()["alpha"]
-    return [(task_name(p, L), list(A[L][1])) for p, L in chain]
+    return [(task_name(p, L), type(A[L][1])(A[L][1])) for p, L in chain]
 
 
 def chain_of(letters):
@@ -200,7 +203,7 @@ def observe_parse(tasks):
     """One call of the real Parser.parse -> canonical observation (never raises)."""
     P = setup()["P"]
     try:
-        res = P.Parser.parse(dict((n, list(b)) for n, b in tasks))
+        res = P.Parser.parse(dict((n, type(b)(b)) for n, b in tasks))
     except KeyboardInterrupt:
         raise
     except vpool.PoolSignal as e:
@@ -450,7 +453,7 @@ def warm_item(chain):
 
 def _bundle(pos, letter):
     S = setup()
-    return S["P"].InsnParsingBundle(S["grammar"], task_name(pos, letter), list(S["alpha"][letter][1]))
+    return S["P"].InsnParsingBundle(S["grammar"], task_name(pos, letter), type(S["alpha"][letter][1])(S["alpha"][letter][1]))
 
 
 def _seq_dfs(prefix, acc, wanted, prefixes):
@@ -672,7 +675,7 @@ def judge(tasks, seq, obs):
 
 
 def case_base(chain, tasks):
-    return {"letters": [L for _, L in chain], "positions": [p for p, _ in chain], "tasks": [[n, b] for n, b in tasks]}
+    return {"letters": [L for _, L in chain], "positions": [p for p, _ in chain], "tasks": [[n, list(b)] for n, b in tasks]}
 
 
 def run(ctx):
@@ -947,7 +950,7 @@ def replay(ctx, path):
         case = json.load(f)
     chain = tuple(zip(case["positions"], case["letters"]))
     tasks = make_tasks(chain)
-    if [[n, b] for n, b in tasks] != case["tasks"]:
+    if [[n, list(b)] for n, b in tasks] != case["tasks"]:
         raise core.HarnessError("the recorded behaviours differ from what the alphabet yields in this tree")
     r = core.fresh_call(_seq_single, chain)
     seq = r[1] if r[0] == "ok" else {"raised": r[1], "message": r[2]}
